@@ -92,8 +92,16 @@ func hasDuplicateKeys(sh *shape, typ string, sels []*sel) bool {
 // null there; every other position as without the failure.
 func C06_paths() {
 	budget, depth := 3, 2
+	// thorough: the larger shapes with plain errors and bare groups, and the
+	// quick shapes with wrapped groups (all three kinds over the larger shapes
+	// did not fit 30 minutes)
+	groupKinds, firstKind := 3, 0
 	if sym.Thorough() {
-		budget, depth = 4, 3
+		if sym.Choice("family", 2) == 0 {
+			budget, depth, groupKinds = 4, 3, 2
+		} else {
+			groupKinds, firstKind = 1, 2
+		}
 	}
 	sh := genShape(budget, depth)
 	sym.Assume(!hasDuplicateKeys(sh, "Query", sh.sels))
@@ -115,7 +123,7 @@ func C06_paths() {
 		return
 	}
 	k := sym.Choice("failAt", len(calls))
-	gk := sym.Choice("group", 3) // 0: plain error, 1: Errors group of 2 members, 2: such a group wrapped in another error
+	gk := firstKind + sym.Choice("group", groupKinds) // 0: plain error, 1: Errors group of 2 members, 2: such a group wrapped in another error
 	group := 0
 	if gk > 0 {
 		group = 2
